@@ -189,9 +189,17 @@ def translate():
             and same(c0.body, parse_stmts("raise ValueError('Missing type arguments')")) and not c0.orelse):
         bad('convert_to_typing_types: first statement is not the bare test raising ValueError')
     conv_bare = cls_set(c0.test.comparators[0], 'convert_to_typing_types bare set')
-    if not same(cb[1:4], parse_stmts('if not isinstance(x, types.GenericAlias):\n    return x\n'
-                                     'origin = x.__origin__\nargs = [convert_to_typing_types(a) for a in x.__args__]')):
+    if not same(cb[1:3], parse_stmts('if not isinstance(x, types.GenericAlias):\n    return x\norigin = x.__origin__')):
         bad('convert_to_typing_types: prologue changed')
+    plain_args = parse_stmts('args = [convert_to_typing_types(a) for a in x.__args__]')
+    if same([cb[3]], plain_args):
+        keeps = False
+    elif (isinstance(cb[3], ast.If) and same([cb[3].test], [ast.parse('origin is type').body[0].value])
+          and same(cb[3].body, parse_stmts('args = [a if isinstance(a, type) else convert_to_typing_types(a) for a in x.__args__]'))
+          and same(cb[3].orelse, plain_args)):
+        keeps = True
+    else:
+        bad('convert_to_typing_types: computation of args changed')
     chain = cb[4]
     conv = []
     node = chain
@@ -346,17 +354,24 @@ def translate():
         'args_type_vars = [type_arg for type_arg in type_args if isinstance(type_arg, TypeVar)]\n'
         'args_type_vars_bounded = [type_var for type_var in args_type_vars if type_var in type_vars]\n'
         'args_type_vars_unbounded = [type_var for type_var in args_type_vars if type_var not in args_type_vars_bounded]')
-    post = parse_stmts(
-        'if matches_non_type_var:\n    return True\n'
-        'for bounded_type_var in args_type_vars_bounded:\n    try:\n'
-        '        _is_instance(obj=value, type_=bounded_type_var, type_vars=type_vars, context=context)\n        return True\n'
-        '    except PedanticException:\n        pass\n'
-        'if not args_type_vars_unbounded:\n    return False\n'
-        'if len(args_type_vars_unbounded) == 1:\n'
-        '    return _is_instance(obj=value, type_=args_type_vars_unbounded[0], type_vars=type_vars, context=context)\n'
-        'return True')
-    if len(cu) != len(pre) + 1 + len(post) or not same(cu[:4], pre) or not same(cu[5:], post):
+    def post_shape(loop_body):
+        return parse_stmts(
+            'if matches_non_type_var:\n    return True\n'
+            'for bounded_type_var in args_type_vars_bounded:\n    try:\n' + loop_body +
+            '    except PedanticException:\n        pass\n'
+            'if not args_type_vars_unbounded:\n    return False\n'
+            'if len(args_type_vars_unbounded) == 1:\n'
+            '    return _is_instance(obj=value, type_=args_type_vars_unbounded[0], type_vars=type_vars, context=context)\n'
+            'return True')
+    call = '_is_instance(obj=value, type_=bounded_type_var, type_vars=type_vars, context=context)'
+    if len(cu) != len(pre) + 1 + 5 or not same(cu[:4], pre):
         bad('_check_union: statements around the non-TypeVar match changed')
+    if same(cu[5:], post_shape(f'        if {call}:\n            return True\n')):
+        un_uses_result = True
+    elif same(cu[5:], post_shape(f'        {call}\n        return True\n')):
+        un_uses_result = False     # pre-fix shape: the verdict of the bound TypeVar is ignored
+    else:
+        bad('_check_union: statements after the non-TypeVar match changed')
     m = cu[4]
     if not (isinstance(m, ast.Assign) and is_name(m.targets[0], 'matches_non_type_var')):
         bad('_check_union: matches_non_type_var assignment changed')
@@ -365,6 +380,21 @@ def translate():
     if not (isinstance(comp, ast.ListComp) and is_name(g.target, 'typ') and is_name(g.iter, 'args_non_type_vars')
             and is_inst_call(comp.elt, N('value'), N('typ'))):
         bad('_check_union: member comprehension changed')
+
+    cl = strip_doc(find_def(tree, '_instancecheck_callable', UNIT).body)
+    pre_c = parse_stmts('if value is None:\n    return False\nif _is_lambda(obj=value):\n    return True\n'
+                        'param_types, ret_type = get_type_arguments(cls=type_)')
+    if not (len(cl) > 4 and same(cl[:3], pre_c) and isinstance(cl[3], ast.Try) and not cl[3].orelse and not cl[3].finalbody
+            and same(cl[3].body, parse_stmts('sig = inspect.signature(obj=value)')) and len(cl[3].handlers) == 1
+            and same(cl[3].handlers[0].body, parse_stmts('return False'))):
+        bad('_instancecheck_callable: prologue up to inspect.signature changed')
+    ht = cl[3].handlers[0].type
+    if is_name(ht) and ht.id in EXN:
+        sig_catches = [EXN[ht.id]]
+    elif isinstance(ht, ast.Tuple) and all(is_name(e) and e.id in EXN for e in ht.elts):
+        sig_catches = [EXN[e.id] for e in ht.elts]
+    else:
+        bad('_instancecheck_callable: unrecognised except clause around inspect.signature')
 
     li = strip_doc(find_def(tree, '_instancecheck_literal', UNIT).body)
     if same(li, parse_stmts('type_args = get_type_arguments(cls=type_)\nreturn value in type_args')):
@@ -391,9 +421,10 @@ def translate():
     out += fun_table('req_min', req['NUM_OF_REQUIRED_TYPE_ARGS_MIN'])
     out += f'  bare_builtins := {coq_list(bare_set)};\n  conv_bare := {coq_list(conv_bare)};\n'
     out += f'  conv_origins := {coq_list(["T" + c for c in conv])};\n'
+    out += f'  conv_type_keeps_classes := {coq_bool(keeps)};\n  sig_catches := {coq_list(sig_catches)};\n'
     out += f'  handlers := {coq_list(handlers)};\n  mismatch_raises := {mismatch};\n'
     out += f'  it_quant := {it_q};\n  it_index := {it_index}%nat;\n  iv_quant := {iv_q};\n  iv_conj := {iv_conj};\n  mp_via_items := true;\n'
     out += f'  tu_ell_quant := {ell_q};\n  tu_ell_index := {ell_index}%nat;\n  tu_len_check := {coq_bool(len_check)};\n  tu_zip_quant := {zip_q};\n'
-    out += f'  un_quant := {un_q};\n  lit_in := {coq_bool(lit_in)};\n  ty_index := {ty_index}%nat;\n'
+    out += f'  un_quant := {un_q};\n  un_bound_uses_result := {coq_bool(un_uses_result)};\n  lit_in := {coq_bool(lit_in)};\n  ty_index := {ty_index}%nat;\n'
     out += f'  str_walks_mro := {coq_bool(walks)};\n  none_by_eq := {coq_bool(none_by_eq)} |}}.\n'
     return {UNIT: out}
